@@ -69,6 +69,7 @@ type clientSetup struct {
 	hitFrame []byte
 	hitField []refcodec.LenField
 	hitVer   int16
+	onHit    func()
 }
 
 func (s *clientSetup) arm(c clientCase, mode string) {
@@ -113,6 +114,10 @@ func (s *clientSetup) hook(cl *fakecluster.Cluster, r *fakecluster.Request) *fak
 	}
 	s.armed = false
 	s.hitConn, s.hitSeq, s.hitVer = r.ConnID, r.Seq, r.Version
+	if s.onHit != nil {
+		s.onHit()
+		s.onHit = nil
+	}
 	act := &fakecluster.Action{Tag: "c17-" + s.mode}
 	capture := func(body map[string]any) {
 		fr, fields, err := refcodec.EncodeResponse(r.API, r.Version, r.Corr, body, nil)
@@ -463,15 +468,37 @@ func evalClient(tb ev.TB, s *clientSetup, c clientCase, base *clientBase, seq in
 		killConn(s, op)
 	}
 	s.arm(c, c.Variant)
-	timeout := 3 * time.Second
-	if c.Variant == "stall" {
-		timeout = 120 * time.Millisecond
-	}
 	ev.InFlight("client", c)
-	data, err, out := clientCall(s, op, seq*2+1, timeout)
+	var data string
+	var err error
+	var out callOutcome
+	if c.Variant == "stall" {
+		// the context of the call ends 120 ms after the target request reached the broker
+		ctx, cancel := context.WithTimeout(context.Background(), 3*time.Second)
+		var hitAt time.Time
+		var hmu sync.Mutex
+		s.mu.Lock()
+		s.onHit = func() {
+			hmu.Lock()
+			hitAt = time.Now()
+			hmu.Unlock()
+			time.AfterFunc(120*time.Millisecond, cancel)
+		}
+		s.mu.Unlock()
+		out = guarded(5*time.Second, func() { data, err = op.call(ctx, s, seq*2+1) })
+		cancel()
+		hmu.Lock()
+		if out.Returned && !hitAt.IsZero() && time.Since(hitAt) > 120*time.Millisecond+2*time.Second {
+			out.Returned = false
+			out.Took = time.Since(hitAt)
+		}
+		hmu.Unlock()
+	} else {
+		data, err, out = clientCall(s, op, seq*2+1, 3*time.Second)
+	}
 	s.disarm()
 	if !out.Returned {
-		fail("c17/hang/client/"+sig, "the call did not return within its deadline + 2 s (waited %v)\n%s", out.Took, "")
+		fail("c17/hang/client/"+sig, "the call did not return within its deadline + 2 s (waited %v)", out.Took)
 		return
 	}
 	if out.Panic != nil {
@@ -579,6 +606,11 @@ func clientGroups() []clientCase {
 		op := clientOps[name]
 		a := refcodec.MustLookup(op.key)
 		for v := a.Min; v <= a.Max; v++ {
+			if op.key == 3 && v == 0 {
+				// against a broker limited to Metadata v0 the Transport's refresh sends a null topic
+				// array, which v0 does not allow (the fake closes the connection): no response to cut
+				continue
+			}
 			for _, tg := range op.targets {
 				if tg.key != op.key && v != a.Max {
 					continue // the implicit requests do not depend on the version of the operation's API
@@ -596,7 +628,7 @@ func clientGroups() []clientCase {
 func enumerateClientGroup(tb ev.TB, g clientCase) {
 	base := clientProbe(tb, g)
 	if base == nil {
-		ev.Count(fmt.Sprintf("client_target_not_sent:%s/%s#%d/shake=%v", g.Op, apiName(g.TKey), g.TIdx, g.Shake), 1)
+		ev.Count(fmt.Sprintf("client_target_not_sent:%s-v%d/%s#%d/shake=%v", g.Op, g.Ver, apiName(g.TKey), g.TIdx, g.Shake), 1)
 		return
 	}
 	rnd := newPrng("client", g.Op, g.Ver, g.TKey, g.TIdx, g.Shake)
